@@ -315,3 +315,29 @@ def build_scenario(spec, binding):
     if binding == "dict":
         return to_scenario(spec)
     raise ValueError(binding)
+
+
+def rename_spec(spec, mapping, suffix="-ren"):
+    """the same scenario with OS / service / process names replaced (names are labels; the format lets them
+    be anything, e.g. names that contain one another)"""
+    m = lambda x: mapping.get(x, x)
+    out = copy.deepcopy(spec)
+    out["name"] = spec["name"] + suffix
+    for k in ("os", "services", "processes"):
+        out[k] = [m(x) for x in spec[k]]
+    for a, h in out["hosts"].items():
+        h["os"] = m(h["os"])
+        h["services"] = [m(x) for x in h["services"]]
+        h["processes"] = [m(x) for x in h["processes"]]
+        h["firewall"] = {k: [m(x) for x in v] for k, v in h.get("firewall", {}).items()}
+    for e in out["exploits"].values():
+        e["service"] = m(e["service"])
+        e["os"] = None if e["os"] is None else m(e["os"])
+    for e in out["privescs"].values():
+        e["process"] = m(e["process"])
+        e["os"] = None if e["os"] is None else m(e["os"])
+    out["firewall"] = {k: [m(x) for x in v] for k, v in out["firewall"].items()}
+    return out
+
+
+SUBSTRING_NAMES = {"os0": "win", "os1": "win-server", "s0": "ftp", "s1": "sftp", "p0": "cron", "p1": "anacron"}
